@@ -1311,6 +1311,32 @@ pub fn run(ctx: &mut Ctx, replay: Option<&str>) {
         batch.push((c, true));
         flush!(false);
     }
+    // (e) every fixed claim set (names that look like syntax, like reserved or registered names, normalisation twins, odd index
+    // spellings ...) under every kind of strategy, through issuer, holder (everything / nothing selected) and verifier
+    {
+        let now = now();
+        for (si, (claims, paths)) in notable_claims(now).into_iter().enumerate() {
+            for (ki, st) in [Strategy::None, Strategy::Top, Strategy::All, Strategy::Custom(paths.clone())].into_iter().enumerate() {
+                let args = IssueArgs { claims: claims.clone(), strategy: st, holder: None, decoy: (si + ki) % 2 == 0, fmt: if (si + ki) % 3 == 0 { Fmt::Json } else { Fmt::Compact }, key: KeyId::IssuerEc, alg: None, queue: None };
+                let stream = "e fixed claim sets through issuer, holder and verifier".to_string();
+                batch.push((Case { stream: stream.clone(), call: Call::Issue(args.clone()), risky: false }, true));
+                mark_inflight(&Case { stream: stream.clone(), call: Call::Issue(args.clone()), risky: false });
+                ctx.impl_calls += 2;
+                if let Outcome::Ok(s) = issue(&args).out {
+                    let sel = sel_map(select_all(&args.claims));
+                    let hs = holder_session(&s, args.fmt, &[PresentArgs::plain(sel.clone()), PresentArgs::plain(Map::new())]);
+                    batch.push((Case { stream: stream.clone(), call: Call::Holder { input: s.clone(), fmt: args.fmt, calls: vec![PresentArgs::plain(sel), PresentArgs::plain(Map::new())] }, risky: false }, true));
+                    batch.push((Case { stream: stream.clone(), call: Call::Verify(VerifyArgs { input: s.clone(), fmt: args.fmt, resolver: Resolver::always(args.key), aud: None, nonce: None }), risky: false }, true));
+                    for c in hs.calls.iter() {
+                        if let Outcome::Ok(p) = &c.out {
+                            batch.push((Case { stream: stream.clone(), call: Call::Verify(VerifyArgs { input: p.clone(), fmt: args.fmt, resolver: Resolver::always(args.key), aud: None, nonce: None }), risky: false }, true));
+                        }
+                    }
+                }
+                flush!(false);
+            }
+        }
+    }
     flush!(true);
     if let Some(p) = pending.take() {
         finish_batch(ctx, p);
